@@ -348,7 +348,13 @@ BUILD["BorrowableQubit"] = _b_clean
 STRAT["BorrowableQubit"] = STRAT["CleanQubit"]
 
 
-@reg("Coupler", lambda: qubits(2, 2, ["grid", "line"]).map(lambda qs: {"T": "Coupler", "q": qs}), emits=["Coupler"])
+def coupler(kinds=None):
+    """cirq_google.Coupler over two distinct qubits of any class (named ones make its cached hash seed-dependent)."""
+    return st.one_of(qubits(2, 2, kinds), qubits(2, 2, ["named"]), qubits(2, 2, ["named", "grid"]),
+                     st.lists(qid(None, ["named", "line", "grid"]), min_size=2, max_size=2, unique_by=qid_key)).map(lambda qs: {"T": "Coupler", "q": qs})
+
+
+@reg("Coupler", coupler, emits=["Coupler"])
 def _b_coupler(r):
     import cirq_google
 
@@ -2537,6 +2543,21 @@ def root_value(name=None):
     """{"name": registered name, "v": recipe} for a uniformly drawn covered name."""
     names = covered_names() if name is None else [name]
     return st.sampled_from(names).flatmap(lambda n: st.sampled_from(ROOTS[n]).flatmap(lambda k: S(k).map(lambda r: {"name": n, "kind": k, "v": r})))
+
+
+def hash_cached_value():
+    """values whose (cached) hash depends on the per-process string hash seed: every qid class over names, keys, ops,
+    moments and frozen circuits on named qubits (pickle_xproc)."""
+    named_reg = st.integers(1, 3).flatmap(lambda n: st.lists(qid(2, ["named"]), min_size=n, max_size=n, unique_by=qid_key))
+    mixed_reg = st.integers(1, 3).flatmap(lambda n: st.lists(st.one_of(qid(None, ["named"]), qid(2, ["named", "grid", "line", "pasqal"])), min_size=n, max_size=n, unique_by=qid_key))
+    rg = st.one_of(named_reg, mixed_reg)
+    return st.one_of(
+        coupler(), coupler(), qid(None, ["named"]), qid(), S("CleanQubit"), S("NoIdQ"), mkey(),
+        coupler().flatmap(lambda c: qubits(1, 1, ["named"]).map(lambda q: {"T": "container", "layout": "list", "items": [c, q[0], c], "names": [], "scalars": []})),
+        rg.flatmap(lambda r: op_on(r, 1)), rg.flatmap(lambda r: moment_on(r, 1)), rg.flatmap(lambda r: circuit_on(r, 1, frozen=True)),
+        rg.flatmap(lambda r: circuit_op(r, 0)), S("KeyCondition"), S("InternalTag").map(_hashable_itag), S("CalibrationTag"),
+        S("InsertionNoiseModel"), S("OpIdentifier"), S("ProductState"), S("PauliString"),
+    ).map(lambda r: {"name": "hash_cached", "kind": r.get("T", "?"), "v": r})
 
 
 def any_value():
